@@ -21,8 +21,11 @@ SPEC = dict(
           "teardown: 1-8 callers parked in ONE connectSync each through a plain pointer; the owner thread drops the last "
           "shared_ptr (~Transport: fence, engine stop, waits the callers out) or calls stop(), released {at a generated time, "
           "right BEFORE the I/O thread fires a victim's onConnect with the handler's (or the fake's) mutex release held / "
-          "followed by a pause so the owner queues on the sync mutex and wins against the woken caller, right AFTER it returned} "
-          "+ 0..200 us; both results are legal for the race, only 'error + global callback for that id' / 'left open' fails. "
+          "followed by a pause so the owner queues on the sync mutex and wins against the woken caller, right AFTER it returned, "
+          "while a victim is INSIDE the engine->close(sid) call of its timeout path (the fake keeps it there, bounded), right "
+          "after that close returned with the caller held before its re-lock (interposed pthread_mutex_lock)} + 0..200 us; both "
+          "results are legal for the race, only 'error + global callback for that id' / 'left open' / a sanitizer report "
+          "(use of the freed Impl) / ~Transport later than the longest timeout + 10 s fails. "
           "real: 1-8 callers x 1-4 calls against {accepting, refusing, black-hole (backlog 0 + queued connection), "
           "RST-after-accept, 10.255.255.1} with timeouts {0,1,2,5,20,100 ms}, 1/5 cancellable with a cancel at a generated time. "
           "Non-trivial = an engine event placed in/after the timeout path's close, or a completion within 2 ms of the expiry "
